@@ -564,6 +564,22 @@ keep `count` (all when negative), nothing for a negative offset – for all 64-b
 theorem C12_ex_limit_loop (step : Nat) (hs : step = 1 ∨ step = 2) (offset count : Int) (es : List Msg) :
     Ex.limitReversed step offset count es = limitEntries step offset count es := Ex.limitReversed_eq step hs offset count es
 
+/-- ZREVRANGEBYSCORE end to end on the handler's reply `es`: `ReverseBy(step)` followed by the LIMIT loop is what
+`reverseReplyL` of `Model/Exec` puts into the reply -/
+theorem C12_ex_zrevrangebyscore_loops (es : List Msg) (offset count : Int) (withscores : Bool) :
+    (Ex.reverseBy es (if withscores then 2 else 1)).map (Ex.limitReversed (if withscores then 2 else 1) offset count) =
+      some (if withscores then limitEntries 2 offset count (reversePairs es) else limitEntries 1 offset count es.reverse) := by
+  cases withscores
+  · simp only [Bool.false_eq_true, if_false]
+    have h := Ex.reverseBy_eq es 1
+    simp only [show ¬ ((1 : Int) < 1) by omega, if_false, show (1 : Int).toNat = 1 by rfl] at h
+    rw [h, Ex.revTail_one _ _ (by omega)]
+    simp [Ex.limitReversed_eq 1 (Or.inl rfl)]
+  · simp only [if_true]
+    have h := Ex.reverseBy_eq es 2
+    simp only [show ¬ ((2 : Int) < 1) by omega, if_false, show (2 : Int).toNat = 2 by rfl] at h
+    rw [h, Ex.revTail_two _ _ (by omega)]
+    simp [Ex.limitReversed_eq 2 (Or.inr rfl)]
 /-- the source of these loops is the one that was transcribed (regenerated on every run) -/
 theorem C12_source_reply_loops_are_the_modelled_ones :
     Ex.reverseByModelled.all (fun e => Generated.protoFingerprints.contains (e.1, e.2.1)) = true := by decide
